@@ -168,7 +168,8 @@ example : AtBlks "a\n\x0e\nb\n\n\x0e\nc\n\x0f\n\x0f\nd\n".toList.toArray 0
 Putting C11's normal-form theorem (for **every** text, `pre_parse` yields balanced, well-placed
 markers) together with the acceptance of well-nested blocks: take any text whose lines, once
 trimmed, are empty or *good* — plain characters only with a `plainStart` first character, or written
-with every character escaped (`\c₁\c₂…`, whatever the characters) — with
+with every character escaped (`\c₁\c₂…`, whatever the characters), or plain text with escapes anywhere
+(`see \*\*this\*\*`, `\PART one`: starting with an escape or a `plainStart` character) — with
 **any** indentation pattern, tabs, blank lines, trailing blanks, any `indent_size ≥ 1`… The pre-parsed
 text is accepted in full by **all six documented roots** (a judgment without part markers keeps everything
 in `arguments`).  (The model's `preParse` is tied to the real
@@ -189,26 +190,31 @@ theorem C01_plain_text_any_indentation (n : Nat) (text : List Char) (root : Stri
   rw [he]; exact this
 
 /-- non-vacuity: ragged indentation, a tab, blank lines, trailing blanks and a fully escaped line -/
-example : let text := "first line\n      deeper, (much)\n\n  \tback a bit  \n  \\P\\A\\R\\T\\ \\1\nend\n".toList
+example : let text := "first line\n      deeper, (much)\n\n  \tback a bit  \n  \\P\\A\\R\\T\\ \\1\n    see \\*\\*this\\*\\*\nend\n".toList
     pyStrip (detab 2 text) ≠ [] ∧ ∀ l ∈ (splitLines (pyStrip (detab 2 text))).map trimSpaces, l = [] ∨ GoodLine l := by
   intro text
   have hs := C01_plain_starts
   simp only [List.all_eq_true] at hs
   refine ⟨by decide +kernel, ?_⟩
   have hl : (splitLines (pyStrip (detab 2 text))).map trimSpaces =
-      ["first line".toList, "deeper, (much)".toList, [], "back a bit".toList, "\\P\\A\\R\\T\\ \\1".toList, "end".toList] := by
+      ["first line".toList, "deeper, (much)".toList, [], "back a bit".toList, "\\P\\A\\R\\T\\ \\1".toList,
+       "see \\*\\*this\\*\\*".toList, "end".toList] := by
     decide +kernel
   rw [hl]
   intro l hmem
   simp only [List.mem_cons, List.mem_nil_iff, or_false] at hmem
   have good : ∀ (c : Char) (r : List Char), c ∈ "abcdefghijklmnopqrstuvwxyz0123456789(\"'.,;:-é§".toList →
       (∀ x ∈ c :: r, isPlain x = true) → GoodLine (c :: r) := fun c r hc hp => Or.inl ⟨⟨c, r, rfl, hs c hc⟩, hp⟩
-  rcases hmem with rfl | rfl | rfl | rfl | rfl | rfl
+  rcases hmem with rfl | rfl | rfl | rfl | rfl | rfl | rfl
   · exact Or.inr (good _ _ (by decide) (by decide +kernel))
   · exact Or.inr (good _ _ (by decide) (by decide +kernel))
   · exact Or.inl rfl
   · exact Or.inr (good _ _ (by decide) (by decide +kernel))
-  · exact Or.inr (Or.inr ⟨'P', "ART 1".toList, by decide, by decide⟩)
+  · exact Or.inr (Or.inr (Or.inl ⟨'P', "ART 1".toList, by decide, by decide⟩))
+  · refine Or.inr (Or.inr (Or.inr ⟨[.run 's' "ee ".toList, .esc '*', .esc '*', .run 't' "his".toList, .esc '*', .esc '*'],
+      by decide, ?_, hs 's' (by decide)⟩))
+    simp only [WfSegs, and_true, true_and]
+    decide +kernel
   · exact Or.inr (good _ _ (by decide) (by decide +kernel))
 
 end Bluebell
